@@ -15,6 +15,15 @@ add('C03', 'E-RUN+E-CHW+gen', 'exploration',
     'Trusted: the body renderers (well-formedness of generated bodies), ch-go column objects read directly, attribution of a row to its stream through the stored label document. ClickHouse itself is not involved.',
     'differential runtime monitoring: real ingest path vs rows known by construction', 'DESIGN §3 C03')
 
+add('C01', 'E-RUN+E-CHW+gen (+E-RACE in thorough)', 'exploration',
+    'History checking with fault injection: per batching configuration one child process runs the real writer (router, parsers, retry, batching services) against the fake ClickHouse client; concurrent mixed pushes in calm / random-fault / targeted phases (table keeps failing, fails once, insert held while requests arrive, reconnect refused). Offline oracle on one logical clock: every row owned by a 2xx request is in a successful INSERT that returned before the answer; unanswered requests with an idle database are violations. Thorough adds 70+ configurations and the race detector with a scope classifier.',
+    'Trusted: the fake client (outcome script = what ClickHouse answered), unique-id attribution of rows to requests, the logical clock (block return tick taken before Do returns, answer tick after the reply is read). Retry success after a single failure is recorded but not required (the statement does not demand it).',
+    'runtime monitoring: offline history checker over recorded HTTP answers and INSERT ledger, scripted fault injection, race detector', 'DESIGN §3 C01')
+add('C02', 'E-RUN+E-CHW+gen (+E-RACE in thorough)', 'exploration',
+    'Every INSERT block handed to the fake client under the C01 workload plus shape stress is checked online (equal per-column row counts, ch-go encoder accepts it) and offline (every decoded row of samples/series/spans/tags/profiles equals one submitted row in all fields, no row duplicated inside a block, all rows of a single-chunk acknowledged request sit together in one successful block).',
+    'Trusted: decoding of ch-go column objects, unique ids embedded in every field that can carry one; contiguity/order of rows inside a block is not required.',
+    'runtime monitoring: online block assertions + offline row-level comparison against rows known by construction, race detector', 'DESIGN §3 C02')
+
 NOT_APPLICABLE = {
 }
 ALL = ['C%02d' % i for i in range(1, 21)]
